@@ -524,7 +524,8 @@ func runScenario(run *mon.Run, sc scenario) (res result) {
 			}
 		}
 		for _, v := range victims {
-			cut[v] = mon.Stamp()
+			// what the server queued after the last settle point may still sit in its output queue when the connection dies
+			cut[v] = tSettled
 			if s.Kill(v) {
 				killed[v] = true
 			}
@@ -725,7 +726,7 @@ func TestC27(t *testing.T) {
 	defer run.Finish()
 	run.Assume("fakeredis implements the tracking table of DESIGN appendix B and logs a push in the order it reaches the wire",
 		"a callback log is compared with the per-connection push logs as an interleaving when several connections feed the same callback (the callback has no connection argument)",
-		"a killed connection delivered a prefix of the pushes logged after the kill began, and all logged before")
+		"a killed connection delivered a prefix of the pushes the server logged for it: all of those logged before the last point at which the bubble had settled (every queued byte consumed), possibly not the ones queued while the kill was racing with writers")
 	modes := []string{"optin", "bcast", "prefix", "optout"}
 	holders := []string{"shared", "dedicated", "both"}
 	ends := []string{"kill", "killbusy", "release", "close"}
